@@ -1,6 +1,7 @@
 package props
 
 import (
+	"regexp"
 	"fmt"
 	"go/ast"
 	"go/token"
@@ -31,6 +32,9 @@ func runC16(c *engine.Ctx, tier string) {
 	oneTokenizer(c)
 	escapeAgreement(c)
 	escaperShape(c)
+	keyGrammar(c)
+	unescaperFacts(c)
+	elementParserFacts(c)
 	splitterAutomaton(c)
 	sortedKeys(c)
 	o := c.Custom("C16.4", "api-uniformity", "GetParentPath computes the parent through utils.SplitPath", "the parent of a path is that path without its last element, brackets respected")
@@ -441,6 +445,7 @@ func escaperShape(c *engine.Ctx) {
 		o.Eval(1)
 		inLoop := false
 		escCond, sawCond := false, false
+		negs := 0
 		wroteEsc, wroteRune := false, false
 		for i := range p.Events {
 			e := &p.Events[i]
@@ -459,6 +464,9 @@ func escaperShape(c *engine.Ctx) {
 						if !wroteRune {
 							fail(p, e.Pos, "an iteration does not write the rune itself")
 						}
+						if !escCond && negs < 2 {
+							fail(p, e.Pos, "a rune is written unescaped on a path that excludes only one of 'is the escape character' and 'is a backslash': the escaping condition is not a disjunction of the two")
+						}
 					}
 					inLoop = false
 				}
@@ -470,6 +478,8 @@ func escaperShape(c *engine.Ctx) {
 						sawCond = true
 						if l.Mask == 2 {
 							escCond = true
+						} else {
+							negs++
 						}
 					}
 				}
@@ -490,6 +500,387 @@ func escaperShape(c *engine.Ctx) {
 					wroteRune = true
 				default:
 					fail(p, e.Pos, "unexpected write "+e.CalleeName+"("+strings.Join(e.Args, ",")+") in the escaper")
+				}
+			}
+		}
+	}
+}
+
+// keyGrammar: C16.7. The key syntax the renderer writes is the one the key parser reads.
+func keyGrammar(c *engine.Ctx) {
+	o := c.Custom("C16.7", "K-facts(key grammar)", "renderer: per element '/' then the escaped name; per key, in order, '[' key '=' escaped value ']'. parser (parseKey): succeeds only if s[0] == '[', an unescaped '=' exists in s[1:], the text before it is not empty, an unescaped ']' exists after it, the text between is not empty; it returns (text before '=', text between '=' and ']', text after ']')",
+		"the two sides are written by hand in different functions: a delimiter dropped, added or looked for at the wrong offset on one side only breaks the round trip for every keyed path")
+	defer o.Done(3)
+	ps, err := c.A.PathsOpt(pkgUtils, engine.PathOpts{Roots: []string{"utils.parseKey", "utils.StrPathElem"}, Exact: true, NoInline: true})
+	if err != nil || len(ps) == 0 {
+		o.Undecided(pkgUtils, fmt.Sprintf("no paths: %v", err))
+		return
+	}
+	reported := map[string]bool{}
+	fail := func(fn string, pos token.Pos, msg string) {
+		if !reported[msg] {
+			reported[msg] = true
+			o.Fail(&engine.Violation{Key: fn + "|" + msg, Pos: c.P.Pos(pos), Func: fn, Msg: msg})
+		}
+	}
+	eq := `utils.findUnescaped($s[1:],'=')`
+	rhs := `$s[((1 + ` + eq + `.1) + 1):]`
+	cl := `utils.findUnescaped(` + rhs + `,']')`
+	sawParse, sawRender := false, false
+	for _, p := range ps {
+		name := p.Root.Name()
+		last := &p.Events[len(p.Events)-1]
+		switch name {
+		case "utils.parseKey":
+			if last.Kind != engine.EvReturn || len(last.Results) != 4 || last.Results[3] != "nil" {
+				continue
+			}
+			sawParse = true
+			o.Site(c.P.Pos(last.Pos) + " parseKey success")
+			o.Eval(1)
+			has := func(l, op, r string) bool {
+				for _, x := range engine.CondsBefore(p, len(p.Events)-1) {
+					if x.L == l && x.R == r && x.String() == l+" "+op+" "+r {
+						return true
+					}
+				}
+				return false
+			}
+			switch {
+			case !has("$s[0]", "==", "'['"):
+				fail(name, last.Pos, "parseKey succeeds without s[0] == '['")
+			case !has(eq+".1", ">=", "0"):
+				fail(name, last.Pos, "parseKey succeeds without an unescaped '=' found in s[1:]")
+			case !has(eq, "!=", `""`):
+				fail(name, last.Pos, "parseKey accepts an empty key name")
+			case !has(cl+".1", ">=", "0"):
+				fail(name, last.Pos, "parseKey succeeds without an unescaped ']' found after the '='")
+			case !has(cl, "!=", `""`):
+				fail(name, last.Pos, "parseKey accepts an empty key value")
+			case last.Results[0] != eq:
+				fail(name, last.Pos, "the key name returned is "+last.Results[0]+", not the text before the first unescaped '='")
+			case last.Results[1] != cl:
+				fail(name, last.Pos, "the key value returned is "+last.Results[1]+", not the text between '=' and the first unescaped ']'")
+			case last.Results[2] != rhs+"[("+cl+".1 + 1):]":
+				fail(name, last.Pos, "the remainder returned is "+last.Results[2]+", not the text after the closing ']'")
+			}
+		case "utils.StrPathElem":
+			// sequence of builder calls inside one key iteration and one element iteration
+			var seq []string
+			inKeys := false
+			for i := range p.Events {
+				e := &p.Events[i]
+				switch e.Kind {
+				case engine.EvLoopEnter:
+					if strings.HasPrefix(e.Range, "?keys") {
+						inKeys = true
+						seq = append(seq, "<keys>")
+					} else if e.Range == "$pathElem" {
+						seq = append(seq, "<elem>")
+					}
+				case engine.EvLoopExit:
+					if inKeys && !strings.HasPrefix(p.Events[i].Range, "?") {
+						inKeys = false
+					}
+				case engine.EvCall:
+					switch {
+					case strings.HasPrefix(e.CalleeName, "strings.Builder.Write") && len(e.Args) == 1:
+						seq = append(seq, e.Args[0])
+					case e.CalleeName == "utils.writeSafeString" && len(e.Args) == 3:
+						seq = append(seq, "safe("+e.Args[1]+","+e.Args[2]+")")
+					}
+				}
+			}
+			s := strings.Join(seq, " ")
+			if !strings.Contains(s, "<elem>") || !strings.Contains(s, "<keys> ") || !strings.Contains(s, "'['") && !strings.Contains(s, "'='") && !strings.Contains(s, "']'") {
+				if !strings.Contains(s, "<keys> '") && !strings.Contains(s, "<keys> elem") {
+					continue // a path without a key iteration
+				}
+			}
+			if !strings.Contains(s, "<keys> ") || strings.HasSuffix(s, "<keys>") {
+				continue
+			}
+			sawRender = true
+			o.Site(c.P.Pos(last.Pos) + " StrPathElem: " + s)
+			o.Eval(1)
+			wantElem := "<elem> '/' safe(elem($pathElem).Name,'/')"
+			if !strings.Contains(s, wantElem) {
+				fail(name, last.Pos, "an element is not rendered as '/' followed by its escaped name: "+s)
+			}
+			k := strings.Index(s, "<keys> ")
+			keyPart := s[k+len("<keys> "):]
+			wantKey := "'[' elem(?keys"
+			if !strings.HasPrefix(keyPart, wantKey) {
+				fail(name, last.Pos, "a key does not start with '[' and the key name: "+keyPart)
+				continue
+			}
+			rest := keyPart[strings.Index(keyPart, ") ")+2:]
+			if !strings.HasPrefix(rest, "'=' safe(elem($pathElem).Key[elem(?keys") || !strings.Contains(rest, ",']') ']'") {
+				fail(name, last.Pos, "a key is not rendered as '[' name '=' escaped value ']': "+keyPart)
+			}
+		}
+	}
+	if !sawParse {
+		o.Undecided("utils.parseKey", "no success path found")
+	}
+	if !sawRender {
+		o.Undecided("utils.StrPathElem", "no path with a key iteration found")
+	}
+}
+
+// unescaperFacts: C16.8. findUnescaped and the splitter loop.
+func unescaperFacts(c *engine.Ctx) {
+	o := c.Custom("C16.8", "K-facts(unescaper, splitter loop)", "findUnescaped: without a backslash in s it returns (s[:i], i) for i = IndexByte(s, find) >= 0 and (s, -1) otherwise; with one, an iteration at s[i] == find returns (text so far, i) without writing, any other iteration writes exactly one byte — s[i+1] when s[i] is a backslash that is not the last byte, s[i] otherwise — and the end returns (text, -1). SplitPath: a leading '/' is dropped iff present; an iteration appends path[:nextTokenIndex(path)], continues with path[that:], and drops one '/' iff it follows",
+		"the parser undoes exactly one level of escaping and never looks inside an escape; the splitter returns every element once")
+	defer o.Done(6)
+	ps, err := c.A.PathsOpt(pkgUtils, engine.PathOpts{Roots: []string{"utils.findUnescaped", "utils.SplitPath"}, Exact: true, NoInline: true})
+	if err != nil || len(ps) == 0 {
+		o.Undecided(pkgUtils, fmt.Sprintf("no paths: %v", err))
+		return
+	}
+	reported := map[string]bool{}
+	fail := func(fn string, pos token.Pos, msg string) {
+		if !reported[msg] {
+			reported[msg] = true
+			o.Fail(&engine.Violation{Key: fn + "|" + msg, Pos: c.P.Pos(pos), Func: fn, Msg: msg})
+		}
+	}
+	lit := func(p *engine.Path, s string) bool {
+		for i := range p.Events {
+			if p.Events[i].Kind == engine.EvCond && p.Events[i].Lit.String() == s {
+				return true
+			}
+		}
+		return false
+	}
+	for _, p := range ps {
+		name := p.Root.Name()
+		last := &p.Events[len(p.Events)-1]
+		if last.Kind != engine.EvReturn {
+			continue
+		}
+		o.Eval(1)
+		switch name {
+		case "utils.findUnescaped":
+			if len(last.Results) != 2 {
+				continue
+			}
+			r0, r1 := last.Results[0], last.Results[1]
+			noBS := lit(p, `strings.IndexByte($s,'\\') == -1`)
+			hasBS := lit(p, `strings.IndexByte($s,'\\') != -1`)
+			var writes []string
+			for i := range p.Events {
+				if e := &p.Events[i]; e.Kind == engine.EvCall && strings.HasPrefix(e.CalleeName, "strings.Builder.Write") && len(e.Args) == 1 {
+					writes = append(writes, e.Args[0])
+				}
+			}
+			o.Site(c.P.Pos(last.Pos) + " return " + r0 + ", " + r1)
+			switch {
+			case noBS:
+				switch {
+				case lit(p, `strings.IndexByte($s,$find) < 0`):
+					if r0 != "$s" || r1 != "-1" {
+						fail(name, last.Pos, "fast path, separator absent: returns ("+r0+", "+r1+"), not (s, -1)")
+					}
+				case lit(p, `strings.IndexByte($s,$find) >= 0`):
+					if r0 != "$s[:strings.IndexByte($s,$find)]" || r1 != "strings.IndexByte($s,$find)" {
+						fail(name, last.Pos, "fast path, separator present: returns ("+r0+", "+r1+"), not (s[:i], i)")
+					}
+				default:
+					fail(name, last.Pos, "fast path does not test the search result")
+				}
+				if len(writes) > 0 {
+					fail(name, last.Pos, "the fast path writes into the builder")
+				}
+			case hasBS:
+				found := false
+				for i := range p.Events {
+					if l := p.Events[i]; l.Kind == engine.EvCond && strings.HasPrefix(l.Lit.String(), "$find == $s[?i") {
+						found = true
+					}
+				}
+				switch {
+				case found:
+					if !strings.HasSuffix(r0, "strings.Builder.String()") || !strings.HasPrefix(r1, "?i") || len(writes) != 0 {
+						fail(name, last.Pos, "at an unescaped separator the function must return (text so far, i) without writing: returns ("+r0+", "+r1+") after "+fmt.Sprint(len(writes))+" writes")
+					}
+				default:
+					if r1 != "-1" || !strings.HasSuffix(r0, "strings.Builder.String()") {
+						fail(name, last.Pos, "the end of the text returns ("+r0+", "+r1+"), not (text, -1)")
+					}
+					iterated := false
+					for i := range p.Events {
+						if l := p.Events[i]; l.Kind == engine.EvCond && strings.HasPrefix(l.Lit.String(), "$find != $s[?i") {
+							iterated = true
+						}
+					}
+					if iterated {
+						esc := false
+						for i := range p.Events {
+							if l := p.Events[i]; l.Kind == engine.EvCond {
+								s := l.Lit.String()
+								if strings.HasPrefix(s, "$s[?i") && strings.HasSuffix(s, `== '\\'`) {
+									esc = true
+								}
+							}
+						}
+						notLast := false
+						for i := range p.Events {
+							if l := p.Events[i]; l.Kind == engine.EvCond && strings.HasPrefix(l.Lit.String(), "(len($s) - 1) > ?i") {
+								notLast = true
+							}
+						}
+						switch {
+						case len(writes) != 1:
+							fail(name, last.Pos, fmt.Sprintf("an iteration over a byte that is not the separator writes %d bytes, not one", len(writes)))
+						case esc && notLast && !strings.Contains(writes[0], "++"):
+							fail(name, last.Pos, "after a backslash that is not the last byte the escaped byte (s[i+1]) must be written, not "+writes[0])
+						case !(esc && notLast) && strings.Contains(writes[0], "++"):
+							fail(name, last.Pos, "a byte that is not an escape is skipped: "+writes[0]+" is written instead of s[i]")
+						}
+					}
+				}
+			default:
+				fail(name, last.Pos, "a path does not decide between the fast path and the unescaping loop")
+			}
+		case "utils.SplitPath":
+			var appended, next string
+			iter := false
+			for i := range p.Events {
+				e := &p.Events[i]
+				if e.Kind == engine.EvCall && e.CalleeName == "append" && len(e.Args) == 2 {
+					appended = e.Args[1]
+					iter = true
+				}
+				if e.Kind == engine.EvCall && e.CalleeName == "len" && len(e.Args) == 1 && strings.Contains(e.Args[0], "[utils.nextTokenIndex(") {
+					next = e.Args[0]
+				}
+			}
+			if !iter {
+				continue
+			}
+			o.Site(c.P.Pos(last.Pos) + " append " + appended)
+			m := regexp.MustCompile(`^(\?path@L\d+(?:'\d+)?)\[:utils\.nextTokenIndex\((\?path@L\d+(?:'\d+)?)\)\]$`).FindStringSubmatch(appended)
+			switch {
+			case m == nil || m[1] != m[2]:
+				fail(name, last.Pos, "an iteration appends "+appended+", not path[:nextTokenIndex(path)]")
+			case next != m[1]+"[utils.nextTokenIndex("+m[1]+"):]":
+				fail(name, last.Pos, "after an element the splitter continues with "+next+", not with path[nextTokenIndex(path):]")
+			}
+		}
+	}
+}
+
+// elementParserFacts: C16.9. parseElement and the '/' handling of SplitPath.
+func elementParserFacts(c *engine.Ctx) {
+	o := c.Custom("C16.9", "K-facts(element parser, separator handling)", "parseElement: no unescaped '[' ⇒ (text, nil, nil); an empty name before '[' ⇒ error; otherwise every key is parsed by parseKey on what the previous key left, a parseKey error is returned, keys[k] = v for its results, and (name, keys, nil) is returned. SplitPath: path = path[1:] is executed exactly under len(path) > 0 ∧ path[0] == '/', before the loop and after each element",
+		"an element without keys must not be given an empty key map, a keyed element must not lose or invent keys, and one separator is consumed per element — not none, not two")
+	defer o.Done(6)
+	ps, err := c.A.PathsOpt(pkgUtils, engine.PathOpts{Roots: []string{"utils.parseElement", "utils.SplitPath"}, Exact: true, NoInline: true})
+	if err != nil || len(ps) == 0 {
+		o.Undecided(pkgUtils, fmt.Sprintf("no paths: %v", err))
+		return
+	}
+	reported := map[string]bool{}
+	fail := func(fn string, pos token.Pos, msg string) {
+		if !reported[msg] {
+			reported[msg] = true
+			o.Fail(&engine.Violation{Key: fn + "|" + msg, Pos: c.P.Pos(pos), Func: fn, Msg: msg})
+		}
+	}
+	fu := `utils.findUnescaped($pathElement,'[')`
+	for _, p := range ps {
+		name := p.Root.Name()
+		last := &p.Events[len(p.Events)-1]
+		if last.Kind != engine.EvReturn {
+			continue
+		}
+		lits := map[string]bool{}
+		for i := range p.Events {
+			if p.Events[i].Kind == engine.EvCond {
+				lits[p.Events[i].Lit.String()] = true
+			}
+		}
+		o.Eval(1)
+		switch name {
+		case "utils.parseElement":
+			if len(last.Results) != 3 {
+				continue
+			}
+			r := last.Results
+			o.Site(c.P.Pos(last.Pos) + " return " + strings.Join(r, ", "))
+			switch {
+			case lits[fu+".1 < 0"]:
+				if r[0] != fu || r[1] != "nil" || r[2] != "nil" {
+					fail(name, last.Pos, "an element without '[' returns ("+strings.Join(r, ", ")+"), not (text, nil, nil)")
+				}
+			case !lits[fu+".1 >= 0"]:
+				fail(name, last.Pos, "a path does not test whether the element has a '['")
+			case lits["len("+fu+") == 0"]:
+				if r[2] == "nil" {
+					fail(name, last.Pos, "an element whose name is empty is accepted")
+				}
+			case !lits["len("+fu+") != 0"]:
+				fail(name, last.Pos, "a keyed element is accepted without testing that its name is not empty")
+			default:
+				var pk string
+				stored := false
+				for i := range p.Events {
+					e := &p.Events[i]
+					if e.Kind == engine.EvCall && e.CalleeName == "utils.parseKey" && len(e.Args) == 1 {
+						pk = "utils.parseKey(" + e.Args[0] + ")"
+						if !strings.HasPrefix(e.Args[0], "?keyPart") {
+							fail(name, e.Pos, "parseKey is applied to "+e.Args[0]+", not to what the previous key left")
+						}
+					}
+					if e.Kind == engine.EvWrite && pk != "" && strings.HasSuffix(e.LHS, "["+pk+"]") && e.RHS == pk+".1" {
+						stored = true
+					}
+				}
+				switch {
+				case pk != "" && lits["err("+pk+") != nil"]:
+					if r[2] != "err("+pk+")" {
+						fail(name, last.Pos, "a parseKey error is not returned: "+r[2])
+					}
+				case pk != "" && lits["err("+pk+") == nil"]:
+					if !stored {
+						fail(name, last.Pos, "a parsed key is not stored as keys[k] = v")
+					}
+					if r[0] != fu || !strings.HasPrefix(r[1], "make(map[string]string)") || r[2] != "nil" {
+						fail(name, last.Pos, "a keyed element returns ("+strings.Join(r, ", ")+"), not (name, keys, nil)")
+					}
+				case pk != "":
+					fail(name, last.Pos, "the error of parseKey is not tested")
+				}
+			}
+		case "utils.SplitPath":
+			// every strip write is preceded by its two conditions, and every time both hold the strip follows
+			for i := range p.Events {
+				e := &p.Events[i]
+				if e.Kind == engine.EvWrite && e.Local != nil && e.Local.Name() == "path" && strings.HasSuffix(e.RHS, "[1:]") {
+					base := strings.TrimSuffix(e.RHS, "[1:]")
+					o.Site(c.P.Pos(e.Pos) + " path = " + e.RHS)
+					if !lits["len("+base+") > 0"] || !lits[base+"[0] == '/'"] {
+						fail(name, e.Pos, "a byte is dropped from the path on a path that does not establish that it is a '/' ("+e.RHS+")")
+					}
+				}
+			}
+			for l := range lits {
+				if strings.HasSuffix(l, "[0] == '/'") {
+					base := strings.TrimSuffix(l, "[0] == '/'")
+					if !lits["len("+base+") > 0"] {
+						continue
+					}
+					found := false
+					for i := range p.Events {
+						e := &p.Events[i]
+						if e.Kind == engine.EvWrite && e.Local != nil && e.Local.Name() == "path" && e.RHS == base+"[1:]" {
+							found = true
+						}
+					}
+					if !found {
+						fail(name, last.Pos, "a '/' that follows an element (or leads the path) is not consumed: "+base)
+					}
 				}
 			}
 		}
